@@ -2,21 +2,40 @@ from bcv.shadow import Sub
 
 # Visibility only: the harness module lives at crate::verif_kani, so items private to a *sub*module must be raised to
 # pub(crate) for the leaf lemmas to call them.  No function body is touched.
+_KZ_SSE2_SUBS = [
+    Sub("src/sse2/mod.rs", "mod backends;", "pub(crate) mod backends;", 1, why="visibility of the sse2 backend module for leaf lemmas"),
+    Sub("src/sse2/backends.rs", "unsafe fn sub_bytes(", "pub(crate) unsafe fn sub_bytes(", 1, why="visibility of leaf sub_bytes"),
+    Sub("src/sse2/backends.rs", "unsafe fn transform(", "pub(crate) unsafe fn transform(", 1, why="visibility of leaf transform"),
+]
+_KZ_SOFT_SUBS = [
+    Sub("src/big_soft/mod.rs", "mod backends;", "pub(crate) mod backends;", 1, why="visibility of the big_soft backend module for leaf lemmas"),
+    Sub("src/big_soft/backends.rs", "fn sub_bytes(", "pub(crate) fn sub_bytes(", 1, why="visibility of leaf sub_bytes"),
+    Sub("src/big_soft/backends.rs", "fn transform(", "pub(crate) fn transform(", 1, why="visibility of leaf transform"),
+]
+_KZ_COMPACT_SUBS = [
+    Sub("src/compact_soft/mod.rs", "mod backends;", "pub(crate) mod backends;", 1, why="visibility of the compact_soft backend module for leaf lemmas"),
+    Sub("src/compact_soft/backends.rs", "fn lsx(", "pub(crate) fn lsx(", 1, why="visibility of leaf lsx"),
+    Sub("src/compact_soft/backends.rs", "fn lsx_inv(", "pub(crate) fn lsx_inv(", 1, why="visibility of leaf lsx_inv"),
+]
 VARIANTS = {
     "magma": dict(crate="magma", common_mods=["uf"], subs=[
         Sub("src/sboxes.rs", "const fn gen_exp_sbox(", "pub(crate) const fn gen_exp_sbox(", 1, why="visibility of gen_exp_sbox for its leaf lemma"),
     ]),
     "belt-block": dict(crate="belt-block", common_mods=["uf"]),
-    "kuznyechik": dict(crate="kuznyechik", common_mods=["uf"], subs=[
-        Sub("src/sse2/mod.rs", "mod backends;", "pub(crate) mod backends;", 1, why="visibility of the sse2 backend module for leaf lemmas"),
-        Sub("src/sse2/backends.rs", "unsafe fn sub_bytes(", "pub(crate) unsafe fn sub_bytes(", 1, why="visibility of leaf sub_bytes"),
-        Sub("src/sse2/backends.rs", "unsafe fn transform(", "pub(crate) unsafe fn transform(", 1, why="visibility of leaf transform"),
-        Sub("src/sse2/backends.rs", "pub(super) ", "pub(crate) ", 3, why="visibility of RoundKeys / expand_enc_keys / inv_enc_keys"),
-    ]),
+    "kuznyechik": dict(crate="kuznyechik", common_mods=["uf"], subs=_KZ_SSE2_SUBS),
+    "kuznyechik:soft": dict(crate="kuznyechik", cfgs=['kuznyechik_backend="soft"'], common_mods=["uf"], subs=_KZ_SOFT_SUBS),
+    "kuznyechik:compact": dict(crate="kuznyechik", cfgs=['kuznyechik_backend="compact_soft"'], common_mods=["uf"], subs=_KZ_COMPACT_SUBS),
 }
+_KZ = [
+    ("kuznyechik", ["kuznyechik/kz_common.rs", "kuznyechik/sse2.rs"]),
+    ("kuznyechik:soft", ["kuznyechik/kz_common.rs", "kuznyechik/soft.rs"]),
+    ("kuznyechik:compact", ["kuznyechik/kz_common.rs", "kuznyechik/compact.rs"]),
+]
 PLAN = {
-    "C07": [("magma", ["magma/conf.rs"]), ("belt-block", ["belt-block/conf.rs"]), ("kuznyechik", ["kuznyechik/sse2.rs"])],
+    "C07": [("magma", ["magma/conf.rs"]), ("belt-block", ["belt-block/conf.rs"])] + _KZ,
     "C18": [("belt-block", ["belt-block/wblock.rs"])],
-    "C01": [("magma", ["magma/conf.rs"]), ("belt-block", ["belt-block/conf.rs", "belt-block/wblock.rs"]), ("kuznyechik", ["kuznyechik/sse2.rs"])],
-    "C20": [("magma", ["magma/conf.rs"]), ("belt-block", ["belt-block/conf.rs", "belt-block/wblock.rs"]), ("kuznyechik", ["kuznyechik/sse2.rs"])],
+    "C01": [("magma", ["magma/conf.rs"]), ("belt-block", ["belt-block/conf.rs", "belt-block/wblock.rs"])] + _KZ,
+    "C20": [("magma", ["magma/conf.rs"]), ("belt-block", ["belt-block/conf.rs", "belt-block/wblock.rs"])] + _KZ,
+    "C03": list(_KZ),
+    "C12": list(_KZ),
 }
